@@ -44,7 +44,7 @@ func TestVerifExhaustive(t *testing.T) {
 				n *= len(exhAlphabet)
 			}
 			for code := 0; code < n; code++ {
-				for _, kind := range []string{"get", "upload"} {
+				for _, kind := range []string{"get", "upload", "delete-then-list"} {
 					total++
 					idx++
 					if idx%nsh != si {
@@ -64,9 +64,14 @@ func TestVerifExhaustive(t *testing.T) {
 					if kind == "get" {
 						c.Layer, c.BlobLen = "L1", 16
 						c.Reqs = []L1Req{{Method: "GET", Target: "blob", ExpectLen: true}}
-					} else {
+					} else if kind == "upload" {
 						c.Layer, c.Op = "L2", "blob-put"
 						c.P = L2Params{Size: 16}
+					} else {
+						// a referrer-aware delete on a registry with the referrers API, then a listing by the same client:
+						// every fault word over the delete's own requests (manifest GET, referrers probe, DELETE)
+						c.Layer, c.Op = "L2", "manifest-delete"
+						c.P = L2Params{Size: 16, Subject: true, NRef: 1, ThenList: true, Feat: FeatSpec{Referrers: true}}
 					}
 					v, inc := report(c, ev)
 					if inc != "" {
